@@ -135,23 +135,21 @@ impl Engine for PoolEngine {
             ctx.count("probe:three_threads");
         }
         let sched_hash = fnv64(&schedule.iter().flat_map(|t| (*t as u32).to_le_bytes()).collect::<Vec<u8>>());
+        let v_is_some = v.is_some();
         Outcome {
             violation: v.map(|(k, d)| Violation::new(k, format!("{d} [schedule {:?}]", &schedule[..schedule.len().min(80)]))),
             nontrivial: switches >= 2 && (hits > 0 || returned > 0),
             steps: schedule.len() as u64,
             trace_hash: mix(&[sched_hash, hits, returned]),
             executions: 1,
+            // the recorded schedule, so that minimisation edits the scenario without re-rolling the schedule
+            // (and so that nobody has to run a failing scenario again just to learn its schedule)
+            explicit_case: if v_is_some && !matches!(case.sched, Sched::Explicit(_)) { serde_json::to_value(PoolCase { scenario: case.scenario.clone(), sched: Sched::Explicit(schedule.clone()) }).ok() } else { None },
         }
     }
 
     fn shrink(&self, case: &PoolCase) -> Vec<PoolCase> {
         let mut out = Vec::new();
-        // Make the schedule explicit first, so that editing the scenario does not re-roll it.
-        if !matches!(case.sched, Sched::Explicit(_)) {
-            let (_, schedule, _) = execute(case);
-            out.push(PoolCase { scenario: case.scenario.clone(), sched: Sched::Explicit(schedule) });
-            return out;
-        }
         let sc = &case.scenario;
         if sc.threads.len() > 2 {
             for i in 0..sc.threads.len() {
